@@ -48,7 +48,7 @@ enum OpKind { OP_START = 1, OP_YIELD, OP_SEND, OP_SENDWAIT, OP_TEST, OP_WAIT, OP
 
 struct VComm { int id; std::vector<int> ranks; std::vector<long> coll_seq; VComm() : id(0) {} int rank_of_world(int w) const { for (size_t i = 0; i < ranks.size(); ++i) if (ranks[i] == w) return (int)i; return -1; } };
 struct VReq { int id; int owner; bool is_recv; VComm* comm; int src, tag; void* buf; long cap; bool complete, cancelled; MPI_Status st; };
-struct VMsg { long id; VComm* comm; int src, dst, tag; std::vector<char> data; bool sync; bool consumed; int sender_world; };
+struct VMsg { long id; VComm* comm; int src, dst, tag; std::vector<char> data; bool sync; bool consumed; bool delivered; int sender_world; };
 struct Coll { int kind; int root; long bytes; int arrived; std::vector<char> present; std::vector<char> data; std::vector<int> colors, keys; std::vector<VComm*> result; std::vector<std::vector<char> > contrib; bool built; int left; Coll() : kind(0), root(-1), bytes(-1), arrived(0), built(false), left(0) {} };
 enum { C_BARRIER = 1, C_BCAST, C_SPLIT, C_DUP, C_ALLREDUCE, C_REDUCE, C_GATHER };
 
@@ -62,7 +62,7 @@ struct Global {
     std::map<std::pair<int,int>, std::deque<VMsg*> > unexpected;     // (comm id, dst comm rank) -> arrival order
     std::map<std::pair<int,int>, std::deque<VReq*> > posted;         // (comm id, dst comm rank) -> post order
     std::map<std::pair<int,long>, Coll> colls;                        // (comm id, sequence number)
-    std::set<std::pair<int,long> > open_colls; std::deque<VMsg*> live_msgs;
+    std::set<std::pair<int,long> > open_colls; std::deque<VMsg*> live_msgs; std::map<long, std::deque<VMsg*> > inflight;   // channel -> sent, not yet delivered (FIFO)
     long next_msg; int next_comm; std::string violation; int violation_kind; int tag_ub;
 } *G = 0;
 
@@ -128,10 +128,10 @@ static void post_recv(VReq* r) {
 static void do_send(VComm* c, const void* buf, long bytes, int dest, int tag, bool sync) {
     if (dest == MPI_PROC_NULL) return;
     Pending p; p.kind = OP_SEND; p.comm = c; p.peer = dest; p.tag = tag; sched_point(p);
-    VMsg* m = new VMsg(); m->id = G->next_msg++; m->comm = c; m->src = c->rank_of_world(tl_rank); m->dst = dest; m->tag = tag; m->data.assign((const char*)buf, (const char*)buf + bytes); m->sync = sync; m->consumed = false; m->sender_world = tl_rank;
+    VMsg* m = new VMsg(); m->id = G->next_msg++; m->comm = c; m->src = c->rank_of_world(tl_rank); m->dst = dest; m->tag = tag; m->data.assign((const char*)buf, (const char*)buf + bytes); m->sync = sync; m->consumed = false; m->delivered = !G->cfg.delayed; m->sender_world = tl_rank;
     G->msgs.push_back(std::unique_ptr<VMsg>(m)); G->live_msgs.push_back(m);
     fold(G->R[tl_rank], mix(mix(0x73656e64, (uint64_t)dest * 131 + (uint64_t)(tag + 7)), hash_bytes(buf, bytes) ^ (uint64_t)c->id));
-    deposit(m);
+    if (G->cfg.delayed) G->inflight[((long)c->id * 64 + m->src) * 64 + m->dst].push_back(m); else deposit(m);
     if (sync) { Pending q; q.kind = OP_SENDWAIT; q.comm = c; q.peer = dest; q.tag = tag; q.msg = m; sched_point(q); fold(G->R[tl_rank], 0x73796e63); }
 }
 static void finish_req(VReq* r, MPI_Status* st) { if (st != MPI_STATUS_IGNORE && st) { *st = r->st; } fold(G->R[tl_rank], mix(mix(0x646f6e65, (uint64_t)r->id), mix((uint64_t)(r->st.MPI_SOURCE + 3) * 1000003ull + (uint64_t)(r->st.MPI_TAG + 5), r->is_recv && r->buf && !r->cancelled ? hash_bytes(r->buf, std::min<long>(r->cap, (long)r->st._ucount)) : 0))); }
@@ -209,6 +209,7 @@ Outcome run(const Config& cfg, const RankMain& body, const Decider& decide) {
             if (!p && spun[r].count(pend_sig(g.R[r].pend))) continue;
             en.push_back(r); prod.push_back(p); } }
         if (live == 0) { out.kind = any_error ? Outcome::EXCEPTION : Outcome::OK; break; }
+        for (auto& ch : g.inflight) if (!ch.second.empty()) { en.push_back(cfg.P + (int)ch.first); prod.push_back(1); }      // one 'deliver' action per non-empty channel
         if (en.empty()) {     // nobody can make progress: blocked ranks, and pollers that completed a full cycle in vain
             out.kind = any_error ? Outcome::EXCEPTION : Outcome::DEADLOCK; std::ostringstream o; o << (any_error ? "a rank threw and the others cannot finish: " : "no rank can make progress: ");
             for (int r = 0; r < cfg.P; ++r) o << "[rank " << r << ": " << pend_str(r) << "] "; out.detail = o.str(); break; }
@@ -217,7 +218,7 @@ Outcome run(const Config& cfg, const RankMain& body, const Decider& decide) {
         for (int r = 0; r < cfg.P; ++r) { uint64_t s = g.R[r].state == 3 ? mix(0xdead, hash_bytes(g.R[r].error.data(), g.R[r].error.size())) : pend_sig(g.R[r].pend); k1 = mix(mix(k1, g.R[r].h1), s); k2 = mix(mix(k2, g.R[r].h2), s * 3 + 1); }
         // what is in flight: unconsumed point-to-point messages and the payload of collectives some member has not left yet
         while (!g.live_msgs.empty() && g.live_msgs.front()->consumed) g.live_msgs.pop_front();
-        for (VMsg* m : g.live_msgs) if (!m->consumed) { uint64_t h = mix(mix((uint64_t)m->comm->id * 1009 + m->src * 31 + m->dst, (uint64_t)(m->tag + 3)), hash_bytes(m->data.data(), m->data.size())); k1 = mix(k1, h); k2 = mix(k2, h * 5 + 3); }
+        for (VMsg* m : g.live_msgs) if (!m->consumed) { uint64_t h = mix(mix((uint64_t)m->comm->id * 1009 + m->src * 31 + m->dst + (m->delivered ? 0 : 7777), (uint64_t)(m->tag + 3)), hash_bytes(m->data.data(), m->data.size())); k1 = mix(k1, h); k2 = mix(k2, h * 5 + 3); }
         for (auto& ck : g.open_colls) { const Coll& c = g.colls[ck];
             uint64_t h = mix((uint64_t)ck.first * 7919 + ck.second, hash_bytes(c.data.data(), c.data.size())); for (auto& cb : c.contrib) h = mix(h, hash_bytes(cb.data(), cb.size())); for (size_t i = 0; i < c.present.size(); ++i) h = mix(h, c.present[i] * 2 + 1); k1 = mix(k1, h); k2 = mix(k2, h * 7 + 1); }
         Point pt; pt.k1 = k1; pt.k2 = k2; pt.enabled = en; pt.productive = prod;
@@ -225,7 +226,11 @@ Outcome run(const Config& cfg, const RankMain& body, const Decider& decide) {
         if (ch == -1) { pt.chosen = -1; out.points.push_back(pt); out.kind = Outcome::CUT; break; }
         if (std::find(en.begin(), en.end(), ch) == en.end()) { pt.chosen = ch; out.points.push_back(pt); out.kind = Outcome::DIVERGED; out.detail = "replayed choice is not enabled"; break; }
         pt.chosen = ch; out.points.push_back(pt);
-        if (trace) { fprintf(stderr, "  step %ld: run rank %d : %s   |", steps, ch, pend_str(ch).c_str()); for (size_t j = 0; j < en.size(); ++j) if (en[j] != ch) fprintf(stderr, " [%d%s: %s]", en[j], prod[j] ? "" : " poll-would-fail", pend_str(en[j]).c_str()); fprintf(stderr, "\n"); }
+        if (trace && ch < cfg.P) { fprintf(stderr, "  step %ld: run rank %d : %s   |", steps, ch, pend_str(ch).c_str()); for (size_t j = 0; j < en.size(); ++j) if (en[j] != ch && en[j] < cfg.P) fprintf(stderr, " [%d%s: %s]", en[j], prod[j] ? "" : " poll-would-fail", pend_str(en[j]).c_str()); fprintf(stderr, "\n"); }
+        if (ch >= cfg.P) {       // deliver the oldest message of that channel; no rank runs
+            std::deque<VMsg*>& q = g.inflight[ch - cfg.P]; VMsg* m = q.front(); q.pop_front(); m->delivered = true; deposit(m); for (auto& sp : spun) sp.clear();
+            if (trace) fprintf(stderr, "  step %ld: deliver message %d->%d tag %d on comm %d\n", steps, m->src, m->dst, m->tag, m->comm->id);
+            continue; }
         { bool p = true; for (size_t j = 0; j < en.size(); ++j) if (en[j] == ch) p = prod[j]; if (p) for (auto& q : spun) q.clear(); else spun[ch].insert(pend_sig(g.R[ch].pend)); }
         pthread_mutex_lock(&g.mu); g.turn = ch; pthread_cond_broadcast(&g.cv); pthread_mutex_unlock(&g.mu);
     }
@@ -239,7 +244,7 @@ Outcome run(const Config& cfg, const RankMain& body, const Decider& decide) {
     for (int r = 0; r < cfg.P; ++r) out.rank_error.push_back(g.R[r].error);
     if (out.kind == Outcome::EXCEPTION && out.detail.empty()) { std::ostringstream o; for (int r = 0; r < cfg.P; ++r) if (!g.R[r].error.empty()) o << "[rank " << r << " threw: " << g.R[r].error << "] "; out.detail = o.str(); }
     if (out.kind == Outcome::OK && !g.violation.empty()) { out.kind = (Outcome::Kind)g.violation_kind; out.detail = g.violation; }
-    long left = 0; for (auto& kv : g.unexpected) left += kv.second.size(); out.leftover_messages = left;
+    long left = 0; for (auto& kv : g.unexpected) left += kv.second.size(); for (auto& kv : g.inflight) left += kv.second.size(); out.leftover_messages = left;
     G = 0; pthread_mutex_destroy(&g.mu); pthread_cond_destroy(&g.cv); delete gp;
     return out;
 }
